@@ -12,8 +12,15 @@ func getTypeFromSchema(schema *spec.Schema) (typeName string, isArray bool) {
 	if len(refStr) > 0 {
 		return refStr, false
 	}
+	if len(schema.Type) == 0 {
+		// untyped schema (e.g. allOf only, or free-form)
+		return "", false
+	}
 	typeName = schema.Type[0]
 	if typeName == ArrayType {
+		if schema.Items == nil || schema.Items.Schema == nil {
+			return "", true
+		}
 		typeName, _ = getSchemaType(&schema.Items.Schema.SchemaProps)
 		return typeName, true
 	}
